@@ -9,9 +9,30 @@
 
 use fpdec_core::{i128_div_rounded, ten_pow, Round};
 
-use crate::Decimal;
+use crate::{Decimal, DecimalError};
 #[cfg(doc)]
 use crate::RoundingMode;
+
+// Rounds a value v with |v| < 10^-n / 2 (given by the sign of `coeff`) to a
+// multiple of 10^-n, where n = `n_frac_digits` < -20.
+// Depending on the rounding mode the result is either 0 or 10^-n with the
+// sign of v.
+#[inline]
+fn checked_round_tiny(coeff: i128, n_frac_digits: i8) -> Option<Decimal> {
+    // A value below half of the rounding unit is rounded like 1/4 of it.
+    let quot = i128_div_rounded(coeff.signum(), 4, None);
+    if quot == 0 {
+        return Some(Decimal::ZERO);
+    }
+    let exp = -i16::from(n_frac_digits);
+    if exp > 38 {
+        return None;
+    }
+    Some(Decimal {
+        coeff: quot * ten_pow(exp as u8),
+        n_frac_digits: 0,
+    })
+}
 
 impl Round for Decimal {
     /// Returns a new `Decimal` with its value rounded to `n_frac_digits`
@@ -39,7 +60,10 @@ impl Round for Decimal {
         if n_frac_digits >= self.n_frac_digits as i8 {
             self
         } else if n_frac_digits < self.n_frac_digits as i8 - 38 {
-            Self::ZERO
+            match checked_round_tiny(self.coeff, n_frac_digits) {
+                Some(res) => res,
+                None => panic!("{}", DecimalError::InternalOverflow),
+            }
         } else {
             // n_frac_digits < self.n_frac_digits
             let shift: u8 = (self.n_frac_digits as i8 - n_frac_digits) as u8;
@@ -86,7 +110,7 @@ impl Round for Decimal {
         if n_frac_digits >= self.n_frac_digits as i8 {
             Some(self)
         } else if n_frac_digits < self.n_frac_digits as i8 - 38 {
-            Some(Self::ZERO)
+            checked_round_tiny(self.coeff, n_frac_digits)
         } else {
             // n_frac_digits < self.n_frac_digits
             let shift: u8 = (self.n_frac_digits as i8 - n_frac_digits) as u8;
